@@ -33,6 +33,7 @@ Step(e) ==
       [] e.ev = "sub_err" -> Flag("subscriber_yielded_error")
       [] e.ev = "sub_end" -> Flag("subscriber_stream_ended")
       [] e.ev = "harness_error" -> Flag("no_delivery_at_all")
+      [] e.ev = "hung" -> Flag("case_did_not_finish_within_120s")
       [] e.ev = "done" ->
             IF Len(out) # nsent THEN Flag(IF finished THEN "items_lost_although_finish_returned" ELSE "items_lost")
             ELSE IF e.extra # 0 THEN Flag("extra_items")
